@@ -11,7 +11,8 @@ from hypothesis import strategies as st
 from .model import (TYPES, ALL_TYPES, FIXED_TYPES, INT_RANGES, tsize, make_path, str_chunk_bytes)
 
 NAME_POOL = ['g', 'h', 'k', 'a b', "q'q", 'x/y', "'", '/', '', "''", "é", 'Ω≈', "a'/'b", '名前', 'G', ' ']
-PROP_NAME_POOL = ['p0', 'p1', 'p2', 'unit_string', 'wf_increment', 'π', '', "n'm"]
+PROP_NAME_POOL = ['p0', 'p1', 'p2', 'unit_string', 'wf_increment', 'π', '', "n'm", 'name', 'path', 'wf_start_time', 'wf_samples',
+                  'P0']
 
 F32_SPECIALS = [0x00000000, 0x80000000, 0x3F800000, 0xBF800000, 0x7F800000, 0xFF800000, 0x7FC00000,
                 0x7FC00001, 0xFFC12345, 0x7FA00000, 0x00000001, 0x807FFFFF, 0x7F7FFFFF, 0x00800000]
